@@ -1,7 +1,7 @@
 (* C09 -- the Miller object: constructor, coordinate properties, setters,
    length, cross, dot -- on the lattice a Phase holds. *)
 From Coq Require Import Reals ZArith Lra Lia Nsatz Bool List Psatz.
-From Verif Require Import Scalar RInst C09Lin C09Miller C09.
+From Verif Require Import Scalar RInst C09Lin C09Miller C09Model.
 From Verif Require Import C09LinAlg C09Alg.
 Import ListNotations.
 Local Open Scope R_scope.
@@ -24,9 +24,6 @@ Lemma vmat_mtr_inv_l (A : M3) (v : V3) :
   mdet ROps A <> 0 -> vmat ROps (vmat ROps v (mtr A)) (mtr (minv ROps A)) = v.
 Proof. intros H. rewrite vmat_mmul, <- mtr_mmul, minv_l by auto.
   replace (mtr (mid ROps)) with (mid ROps) by (lunfold; reflexivity). apply vmat_mid. Qed.
-
-Lemma Ok_inj {X : Type} (a b : X) : Ok a = Ok b -> a = b.
-Proof. intros H; inversion H; reflexivity. Qed.
 
 (* well-formed coordinates for a format: 3 numbers, or 4 with U+V+T = 0 *)
 Definition wf (f : fmt) (c : list R) : Prop :=
@@ -275,3 +272,16 @@ Theorem make_arr_elementwise (A : M3) (f : fmt) (cs : list (list R)) (xs : list 
   forall i c, nth_error cs i = Some c ->
               exists x, nth_error xs i = Some x /\ make ROps (Lat A) f c = Ok x.
 Proof. apply traverse_spec. Qed.
+
+(* _transform_space on an array: element-wise, same number of vectors *)
+Theorem transform_arr_elementwise (L : lattice R) (si so : space) (vs ws : list V3) :
+  transform_space_arr ROps L si so vs = Ok ws ->
+  length ws = length vs /\
+  forall i v, nth_error vs i = Some v ->
+              exists w, nth_error ws i = Some w /\ transform_space ROps L si so v = Ok w.
+Proof.
+  unfold transform_space_arr, transform_space.
+  destruct (transform_matrix ROps L si so) as [M|e]; cbn [rmap]; intros H; [|discriminate].
+  apply Ok_inj in H. subst ws. split; [apply map_length|].
+  intros i v Hv. eexists. split; [apply map_nth_error; exact Hv | reflexivity].
+Qed.
